@@ -25,7 +25,7 @@ from lv import core, drive, sqlscope
 from lv.props import common
 
 ID = 'C10'
-BUDGET = {'quick': 560, 'thorough': 9000}   # 3/4 strings (x 11 positions x 8 engines), 1/4 flag cases
+BUDGET = {'quick': 400, 'thorough': 8000}   # 3/4 strings (x 11 positions x 8 engines), 1/4 flag cases
 WALL = {'quick': 600, 'thorough': 3600}
 ENGINES = list(sqlscope.ENGINES)
 FLAG_SHARE = 4      # one generated case in FLAG_SHARE is a ${flag} case
@@ -323,7 +323,7 @@ def d12_class(s, position, engine):
 # ---------------------------------------------------------------- ${flag} sub-domain
 
 REF = re.compile(r'[$][{](.*?)[}]')
-MAX_ROUNDS = 20000
+MAX_ROUNDS = 3000      # the compiler's own guard is 100 rounds per text it expands
 
 
 class CountingDict(dict):
@@ -560,7 +560,7 @@ SAFE = st.text(alphabet='abcxyz019_ .', min_size=0, max_size=3)
 @st.composite
 def flag_cases(draw):
     names = draw(st.lists(NAME, min_size=1, max_size=5, unique=True))
-    mode = draw(st.sampled_from(['dag', 'dag', 'dag', 'any', 'any', 'undefined']))
+    mode = draw(st.sampled_from(['dag', 'dag', 'dag', 'any', 'any', 'undefined', 'ring']))
     extra = draw(NAME.filter(lambda n: n not in names))
 
     def value(i, pool):
@@ -574,6 +574,12 @@ def flag_cases(draw):
         return ''.join(parts)
     defs = []
     for i, n in enumerate(names):
+        if mode == 'ring':
+            # a -> b -> ... -> a, every value exactly one reference (or nearly)
+            nxt = names[(i + 1) % len(names)]
+            defs.append((n, '${%s}' % nxt + (draw(SAFE) if draw(st.integers(0, 4)) == 0
+                                             else '')))
+            continue
         if mode == 'dag':
             pool = names[i + 1:]
         elif mode == 'any':
@@ -584,7 +590,7 @@ def flag_cases(draw):
     user = {}
     for i, n in enumerate(names):
         if draw(st.integers(0, 3)) == 0:
-            pool = names[i + 1:] if mode != 'any' else names
+            pool = names[i + 1:] if mode not in ('any', 'ring') else names
             user[n] = value(i, pool)
     use_names = draw(st.lists(st.sampled_from(names), min_size=1, max_size=2))
     use = draw(SAFE) + ''.join('${%s}%s' % (n, draw(SAFE)) for n in use_names)
